@@ -18,6 +18,7 @@ type tyNode struct {
 	N      int
 	Fields []tyField
 	Alt    bool // validators are read from the `check` tag (ValidatorTag("check")), `validate` holds VAlt
+	AltC   bool // names are read from the `alt` tag (StructTag("alt")), `config` holds CAlt
 	rt     reflect.Type
 }
 
@@ -28,6 +29,8 @@ type tyField struct {
 	T      *tyNode
 	VAlt   string // validators under the other tag name (dual types only)
 	Dual   bool
+	CAlt   string // name and options under the other struct tag name (DualC types only)
+	DualC  bool
 }
 
 var primKinds = []kindSpec{
@@ -67,8 +70,21 @@ func (t *tyNode) goType() reflect.Type {
 		var fs []reflect.StructField
 		for _, f := range t.Fields {
 			tag := ""
-			if f.CTag != "" {
-				tag = fmt.Sprintf(`config:"%s"`, f.CTag)
+			cname, caname := "config", "alt"
+			if t.AltC {
+				cname, caname = caname, cname
+			}
+			ctags := map[string]string{cname: f.CTag}
+			if f.DualC {
+				ctags[caname] = f.CAlt
+			}
+			for _, n := range []string{"config", "alt"} {
+				if v, ok := ctags[n]; ok && (v != "" || f.DualC) {
+					if tag != "" {
+						tag += " "
+					}
+					tag += fmt.Sprintf(`%s:"%s"`, n, v)
+				}
 			}
 			vname, aname := "validate", "check"
 			if t.Alt {
@@ -431,6 +447,70 @@ func dualize(r *Rng, t *tyNode) {
 		}
 		dualize(r, f.T)
 	}
+}
+
+// dualizeC gives the fields of every struct of t a second set of names under the struct tag name
+// "alt": the names of the plain fields of one struct are rotated among them (their options stay);
+// swapCTags is the same Go type read with the other tag name
+func dualizeC(t *tyNode) {
+	if t == nil {
+		return
+	}
+	t.rt = nil
+	dualizeC(t.Elem)
+	var plain []int
+	for i := range t.Fields {
+		f := &t.Fields[i]
+		f.DualC = true
+		f.CAlt = f.CTag
+		dualizeC(f.T)
+		if !strings.Contains(f.CTag, "inline") && !strings.Contains(f.CTag, "ignore") {
+			plain = append(plain, i)
+		}
+	}
+	split := func(f tyField) (string, string) {
+		parts := strings.SplitN(f.CTag, ",", 2)
+		name, o := parts[0], ""
+		if len(parts) > 1 {
+			o = "," + parts[1]
+		}
+		if name == "" {
+			name = strings.ToLower(f.GoName)
+		}
+		return name, o
+	}
+	for k, i := range plain {
+		next, _ := split(t.Fields[plain[(k+1)%len(plain)]])
+		_, own := split(t.Fields[i])
+		t.Fields[i].CAlt = next + own
+	}
+}
+
+func swapCTags(t *tyNode) *tyNode {
+	if t == nil {
+		return nil
+	}
+	c := *t
+	c.rt = nil
+	c.AltC = !t.AltC
+	c.Elem = swapCTags(t.Elem)
+	c.Fields = nil
+	for _, f := range t.Fields {
+		f.CTag, f.CAlt = f.CAlt, f.CTag
+		f.T = swapCTags(f.T)
+		c.Fields = append(c.Fields, f)
+	}
+	return &c
+}
+
+func (t *tyNode) usesAltCTag() bool {
+	if t == nil {
+		return false
+	}
+	if t.Kind == "struct" {
+		return t.AltC
+	}
+	return t.Elem.usesAltCTag()
 }
 
 func swapTags(t *tyNode) *tyNode {
